@@ -1,11 +1,11 @@
 package main
 
 import (
-	"os"
 	"fmt"
 	"go/token"
 	"go/types"
 	"math/big"
+	"os"
 	"regexp"
 	"sort"
 	"strings"
